@@ -1010,6 +1010,10 @@ def collect(run: core.Run, tier: str, prop: str):
   from . import fixedq_hist
   fixedq_hist.collect(run, tier, jobs, recs)
   Q.set_internal_sigmoid("hard")
+  # strengthening round 4 (seed C02-12): the 1-bit sign formats, every input form of ZERO (appended at the end of
+  # this file; a stream of its own, run last so that every older family keeps its sample and its process state)
+  collect_sign(run, tier, jobs, recs)
+  Q.set_internal_sigmoid("hard")
   outs = core.run_driver(prop, [l for l, _ in jobs], driver="C01")
   for (_, done), o in zip(jobs, outs):
     done(o)
@@ -1074,3 +1078,258 @@ def compare(run: core.Run, recs, with_reporters=True):
       if r.family == "per-channel" and r.kind == "qlinear" and isinstance(r.impl_range, str) \
           and not getattr(r, "model_range_refuses", True):
         run.disagree("range-error:" + r.kind, {"config": r.label}, r.impl_range, "list")
+
+
+# ===========================================================================================================
+# Strengthening round 4 (seed C02-12) — APPENDED: the 1-bit SIGN formats (family `sign-1bit`)
+#
+# quantized_linear(bits=1, keep_negative=1) has the two codes +-qs/2, quantized_bits(bits=1, keep_negative=1)
+# the two codes +-alpha; both are nearest-code projections onto their code set and NEVER emit zero.  The older
+# oracles skipped them (`lattice()` is None: only monotone / idempotent were judged).  This family makes the
+# format a certainty of every run (the base sample holds it only by chance) and aims at its single case split,
+# the input ZERO, in every form it can arrive in.
+# ===========================================================================================================
+
+def sign_codes(kind, cfg):
+  """(lower code, upper code, output gain) of a 1-bit SIGN format, exact; None for every other format.
+  quantized_linear divides by alpha * 2^integer first (the codes are +-qs/2, gain 1); the legacy
+  quantized_bits multiplies the OUTPUT by alpha (codes +-1 of the unscaled input, gain alpha)."""
+  if kind not in ("qbits", "qlinear") or cfg.get("bits") != 1 or not int(cfg.get("keep_negative", 0)):
+    return None
+  g = F(1) if cfg.get("alpha") is None else F(cfg["alpha"])
+  if kind == "qlinear":
+    half = g * F(2) ** cfg["integer"] / 2
+    return -half, half, F(1)
+  return F(-1), F(1), g
+
+
+SIGN_FORMS = ("tensor", "numpy", "list", "float64", "scalar-py", "scalar-0d", "rank2", "rank3", "rank4", "rank5",
+              "zeros", "negzeros", "int32", "variable", "layer", "tf-function", "get_quantizer", "again")
+
+
+def configs_sign(tier, rng):
+  """[(sub-family, kind, cfg)] — a stream of its own"""
+  quick = tier == "quick"
+  out = []
+  alphas = [None, 1.0, 0.5, 2.0, 0.25, 1.5, 3.0]
+  lin = [dict(bits=1, integer=i, symmetric=sym, keep_negative=1, alpha=a)
+         for i in range(-2, 4) for sym in (0, 1) for a in alphas]
+  bit = [dict(bits=1, integer=i, symmetric=sym, keep_negative=1, alpha=a)
+         for i in (-1, 0, 2) for sym in (0, 1) for a in alphas]
+  # fresh object, breakpoint-complete stream (zeros, subnormals, +-ulp around 0 and around both codes).  Power-of-two
+  # scales only here and in the phase routes: that stream holds +-(2^24 - 1) steps, where the float32
+  # straight-through sum x + (xq - x) is exact only for power-of-two codes (the `forms` stream stops at 2^20 steps
+  # and takes the other scales)
+  po2 = lambda lst: [c for c in lst if c["alpha"] not in (1.5, 3.0)]
+  for c in _pick(rng, po2(lin), 10 if quick else 60):
+    out.append(("scalar", "qlinear", c))
+  for c in _pick(rng, po2(bit), 6 if quick else 30):
+    out.append(("scalar", "qbits", c))
+  # ONE object through every input form (a history as well: k-th use = fresh use)
+  for c in _pick(rng, lin, 6 if quick else 30):
+    out.append(("forms", "qlinear", c))
+  for c in _pick(rng, bit, 3 if quick else 12):
+    out.append(("forms", "qbits", c))
+  # use_stochastic_rounding x the learning phase on the 1-bit format (routes of round 3)
+  for route in ("asis", "train-then-infer", "scope1-exit", "ctor-train", "layer", "tf-function", "noflag-train"):
+    c = dict(po2(lin)[int(rng.integers(0, len(po2(lin))))])
+    c.update(stoch=0 if route == "noflag-train" else 1, phase=1 if route == "noflag-train" else 0, proute=route,
+             flag_form=FLAG_FORMS[int(rng.integers(0, len(FLAG_FORMS)))],
+             u=float(rng.integers(0, 1024)) / 1024.0, u2=float(rng.integers(0, 1024)) / 1024.0)
+    out.append(("phase", "qlinear", c))
+  for route in ("asis", "assign", "noflag-train"):
+    c = dict(po2(bit)[int(rng.integers(0, len(po2(bit))))])
+    c.update(stoch=0 if route == "noflag-train" else 1, phase=1 if route == "noflag-train" else 0, proute=route,
+             flag_form=FLAG_FORMS[int(rng.integers(0, len(FLAG_FORMS)))], u=0.5, u2=0.5)
+    out.append(("phase", "qbits", c))
+  # per-channel constant alpha tensors
+  for layout in ("row", "col", "r4") if quick else ("row", "vec", "col", "list", "tf", "r4"):
+    al = PC_ALPHAS[int(rng.integers(0, len(PC_ALPHAS)))]
+    out.append(("pc", "qlinear_pc", dict(bits=1, integer=int(rng.integers(-1, 3)), symmetric=int(rng.integers(0, 2)),
+                                         keep_negative=1, alphas=list(al), layout=layout)))
+  for layout in ("list", "tuple"):
+    al = PC_ALPHAS[int(rng.integers(0, len(PC_ALPHAS)))]
+    out.append(("pc", "qbits_pc", dict(bits=1, integer=int(rng.integers(-1, 3)), symmetric=int(rng.integers(0, 2)),
+                                       keep_negative=1, alphas=list(al), layout=layout)))
+  # data-dependent scales, judged GIVEN the scale the object reports
+  for mode in ("auto", "auto_po2", "auto", "auto_po2") if quick else ("auto", "auto_po2") * 8:
+    out.append(("auto", "qlinear", dict(bits=1, integer=int(rng.integers(-1, 3)), symmetric=int(rng.integers(0, 2)),
+                                        keep_negative=1, alpha_mode=mode, via=["direct", "trainable"][int(rng.integers(0, 2))]
+                                        if mode == "auto_po2" else "direct")))
+  return out
+
+
+def _sign_points(rng, half):
+  """float32 inputs for the form stream: both zeros, both codes +-1 ulp, inside / outside the range, tiny
+  NORMAL values (no subnormals: numpy inputs are not flushed the way tensors are), large values"""
+  h = float(half)
+  pts = [0.0, -0.0, h, -h, h / 2, -h / 2, 2 * h, -2 * h, 6 * h, -6 * h, 1e-30, -1e-30, h * 2.0 ** 20, -h * 2.0 ** 20]
+  for b in (h, -h):
+    pts += ulps(np.float32(b), ks=(-1, 1))
+  pts += list((rng.choice([-1, 1], size=6) * np.exp2(rng.uniform(-10, 3, size=6)) * h))
+  return np.array(pts, dtype=np.float32)
+
+
+def _sign_form_call(q, form, xs, state):
+  """run `xs` (1-D float32) through the quantizer in the given input form; returns (inputs as seen, outputs)"""
+  import tensorflow as tf
+  n = len(xs)
+  if form in ("tensor", "again"):
+    return xs, np.asarray(q(tf.constant(xs)), dtype=np.float32)
+  if form == "numpy":
+    return xs, np.asarray(q(np.array(xs, dtype=np.float32)), dtype=np.float32)
+  if form == "list":
+    return xs, np.asarray(q([float(v) for v in xs]), dtype=np.float32)
+  if form == "float64":
+    return xs, np.asarray(q(np.array(xs, dtype=np.float64)), dtype=np.float32)
+  if form == "scalar-py":
+    sel = xs[:8]
+    return sel, np.array([np.asarray(q(float(v)), dtype=np.float32).reshape(()) for v in sel], dtype=np.float32)
+  if form == "scalar-0d":
+    sel = xs[:8]
+    return sel, np.array([np.asarray(q(tf.constant(np.float32(v))), dtype=np.float32).reshape(()) for v in sel],
+                         dtype=np.float32)
+  if form in ("rank2", "rank3", "rank4", "rank5"):
+    shape = {"rank2": (n, 1), "rank3": (1, n, 1), "rank4": (1, 1, n, 1), "rank5": (1, 1, 1, n, 1)}[form]
+    y = np.asarray(q(tf.constant(xs.reshape(shape))), dtype=np.float32)
+    if y.shape != shape:
+      raise AssertionError("shape %r -> %r" % (shape, y.shape))
+    return xs, y.reshape(-1)
+  if form in ("zeros", "negzeros"):
+    z = np.zeros((2, 3), dtype=np.float32) * np.float32(-1.0 if form == "negzeros" else 1.0)
+    return z.reshape(-1), np.asarray(q(tf.constant(z)), dtype=np.float32).reshape(-1)
+  if form == "int32":
+    zi = np.array([-2, -1, 0, 1, 2, 0, 0, 7], dtype=np.int32)
+    return zi.astype(np.float32), np.asarray(q(zi), dtype=np.float32)
+  if form == "variable":
+    return xs, np.asarray(q(tf.Variable(xs)), dtype=np.float32)
+  if form == "layer":
+    import qkeras
+    lay = qkeras.QActivation(q)
+    if lay.quantizer is not q:
+      raise AssertionError("QActivation holds another object")
+    return xs, np.asarray(lay(tf.constant(xs)), dtype=np.float32)
+  if form == "tf-function":
+    fn = tf.function(lambda v: q(v), input_signature=[tf.TensorSpec([None], tf.float32)])
+    return xs, np.asarray(fn(tf.constant(xs)), dtype=np.float32)
+  if form == "get_quantizer":
+    # the text route: str(q) -> get_quantizer -> a NEW object that must behave the same
+    from qkeras import quantizers as Q
+    q2 = Q.get_quantizer(state["text"])
+    return xs, np.asarray(q2(tf.constant(xs)), dtype=np.float32)
+  raise ValueError(form)
+
+
+def _sign_job(r, kind, cfg, jobs):
+  line = {"op": kind, "cfg": {"bits": cfg["bits"], "integer": cfg["integer"], "symmetric": cfg["symmetric"],
+                             "keep_negative": cfg["keep_negative"],
+                             "alpha": None if cfg["alpha"] is None else core.rj(cfg["alpha"])},
+          "xs": _rats(r.xs)}
+
+  def done(o, r=r):
+    r.model = [core.unrj(p) for p in o["ys"]]
+    r.model_min, r.model_max = core.unrj(o["min"]), core.unrj(o["max"])
+  jobs.append((line, done))
+
+
+def _collect_sign_forms(run, rng, kind, cfg, jobs, recs):
+  import tensorflow as tf
+  lo, hi, gain = sign_codes(kind, cfg)
+  try:
+    q = _build_direct(kind, cfg)
+  except Exception:  # pylint: disable=broad-except
+    run.count("ctor_error")
+    return
+  xs = _sign_points(rng, hi * gain if kind == "qlinear" else hi)
+  a = cfg["alpha"]
+  cls = "quantized_linear" if kind == "qlinear" else "quantized_bits"
+  state = {"text": "%s(bits=1,integer=%d,symmetric=%d,keep_negative=1%s)" % (
+      cls, cfg["integer"], cfg["symmetric"], "" if a is None else ",alpha=%r" % float(a))}
+
+  def plain(arr):
+    return np.asarray(q(tf.constant(np.asarray(arr, dtype=np.float32))), dtype=np.float32)
+  for form in SIGN_FORMS:
+    try:
+      xin, ys = _sign_form_call(q, form, xs, state)
+    except Exception as e:  # pylint: disable=broad-except
+      run.count("sign_form_error:%s:%s:%s" % (kind, form, type(e).__name__))
+      continue
+    c = dict(cfg, form=form)
+    r = Rec(kind, _label(kind, c), c)
+    r.family, r.q, r.call = "sign-1bit", q, plain
+    r.xs, r.ys, r.x32 = fr(xin), fr(ys), xin
+    run.evaluations += len(xin)
+    run.count("sign_form_" + form)
+    _sign_job(r, kind, cfg, jobs)
+    recs.append(r)
+
+
+def _collect_sign_auto(run, rng, cfg, jobs, recs):
+  """quantized_linear(1, ..., alpha="auto" / "auto_po2") on a [N, C] tensor: one scale per column; every column
+  is judged as the 1-bit format of the scale the object REPORTS for it (an oracle input, as in the histories)"""
+  import tensorflow as tf
+  from qkeras import quantizers as Q
+  mode = cfg["alpha_mode"]
+  try:
+    if cfg["via"] == "trainable":
+      q = Q.quantized_linear(1, cfg["integer"], cfg["symmetric"], keep_negative=1, alpha=None)
+      q._set_trainable_parameter()      # alpha=None -> "auto_po2", symmetric on
+    else:
+      q = Q.quantized_linear(1, cfg["integer"], cfg["symmetric"], keep_negative=1, alpha=mode)
+  except Exception:  # pylint: disable=broad-except
+    run.count("ctor_error")
+    return
+  units = np.array([0.0, -0.0, 1.0, -1.0, 0.5, -0.5, 0.25, -0.75, 1.0 / 64, -1.0 / 64, 0.0, 0.875, -0.375, 0.0],
+                   dtype=np.float32)
+  units = np.concatenate([units, rng.uniform(-1, 1, size=6).astype(np.float32)])
+  scales = [2.0 ** int(rng.integers(-3, 4)) for _ in range(3)]
+  cols = [(units * np.float32(s)).astype(np.float32) for s in scales]
+  if mode == "auto":
+    cols.append(np.zeros_like(units))       # an all-zero channel: the scale is K.epsilon(), the output is not 0
+  x = np.stack(cols, axis=1)
+  C = x.shape[1]
+  try:
+    y = np.asarray(q(tf.constant(x)), dtype=np.float32)
+    sc = np.asarray(q.quantization_scale, dtype=np.float32).ravel()
+    assert y.shape == x.shape
+  except Exception as e:  # pylint: disable=broad-except
+    run.count("call_error")
+    run.count("call_error:sign-auto:" + type(e).__name__)
+    return
+  if sc.size == 1:
+    sc = np.repeat(sc, C)
+  if sc.size != C or not np.all(np.isfinite(sc)) or not np.all(sc > 0):
+    run.disagree("sign-auto-scale", {"config": _label("qlinear", cfg)}, str(sc), "one positive scale per channel")
+    return
+  for j in range(C):
+    a = F(float(sc[j])) / F(2) ** cfg["integer"]        # alpha-equivalent of the reported scale (ub = 0)
+    c = dict(bits=1, integer=cfg["integer"], symmetric=1 if cfg["via"] == "trainable" else cfg["symmetric"],
+             keep_negative=1, alpha=a, auto=1, alpha_mode=mode, via=cfg["via"], chan=j)
+    r = Rec("qlinear", "%s channel %d" % (_label("qlinear", cfg), j), c)
+    r.family, r.q = "sign-1bit", q
+    r.xs, r.ys, r.x32 = fr(x[:, j]), fr(y[:, j]), x[:, j]
+    run.evaluations += x.shape[0]
+    run.count("sign_auto_" + mode)
+    _sign_job(r, "qlinear", c, jobs)
+    recs.append(r)
+
+
+def collect_sign(run, tier, jobs, recs):
+  """family `sign-1bit` (strengthening round 4); a random stream of its own"""
+  rng = np.random.default_rng([run.seed, 20261006])
+  phase_ok = have_phase()
+  for sub, kind, cfg in configs_sign(tier, rng):
+    run.count("sign_sub_" + sub)
+    if sub == "forms":
+      _collect_sign_forms(run, rng, kind, cfg, jobs, recs)
+    elif sub == "auto":
+      _collect_sign_auto(run, rng, cfg, jobs, recs)
+    elif sub == "pc":
+      _collect_pc(run, rng, kind, cfg, jobs, recs)     # records keep the family "per-channel" (known-finding keys)
+    elif sub == "phase":
+      if phase_ok:
+        _collect_scalar(run, rng, kind, cfg, "sign-1bit", jobs, recs)
+    else:
+      _collect_scalar(run, rng, kind, cfg, "sign-1bit", jobs, recs)
+  if phase_ok:
+    _set_phase(0)
